@@ -9,7 +9,8 @@
 (*  w the item size in bytes, sh the sub-array shape (<<>> = scalar).  A cell is  *)
 (*  the sequence of the field's elements in C order.  Elements are abstract:      *)
 (*    number : a STRING token.  In the bounded model the symbolic tokens          *)
-(*             min m1 z p1 max / nan pinf ninf pz nz fa fb; in recorded           *)
+(*             min m1 z p1 max / nan pinf ninf pz nz fa fb and the text-shape     *)
+(*             classes fs fl fz fi fd fx (see TCFltShapes); in recorded           *)
 (*             observations the decimal text of an integer, and for floats        *)
 (*             nan pinf ninf pz nz or the exact hexadecimal text of the value     *)
 (*             (so that token equality is value equality with NaN |-> NaN and     *)
@@ -133,10 +134,24 @@ TCIsWS(c, dc) == c \in TCWSChars \/ (c = "dl" /\ dc \in {"tab", "space"})
 TCNumText == [min |-> <<"-", "1", "0">>, m1 |-> <<"-", "1">>, z |-> <<"0">>, p1 |-> <<"1">>, max |-> <<"9">>,
               nan |-> <<"n", "a", "n">>, pinf |-> <<"i", "n", "f">>, ninf |-> <<"-", "i", "n", "f">>,
               pz |-> <<"0">>, nz |-> <<"-", "0">>,
-              fa |-> <<"1", ".", "5">>, fb |-> <<"-", "2", "e", "9">>]
+              fa |-> <<"1", ".", "5">>, fb |-> <<"-", "2", "e", "9">>,
+              fs |-> <<"5">>, fl |-> <<"-", "1", ".", "5", "e", "-", "1", "9">>, fz |-> <<"0", ".", "0", "1", "5">>,
+              fi |-> <<"1", "5">>, fd |-> <<"5", "e", "-", "9">>, fx |-> <<"9", "e", "9">>]
 TCNumChars == {"-", "0", "1", "2", "5", "9", "n", "a", "i", "f", ".", "e"}   \* the letter of string cells is "x"
 TCIntToks  == {"min", "m1", "z", "p1", "max"}
-TCFltToks  == {"nan", "pinf", "ninf", "pz", "nz", "fa", "fb"}
+\* Text shapes of a finite float as "%.16g" / "%.7g" print it (the concrete value is drawn by the
+\* adapter from the short-decimal lattice restricted to the shape, 16 / 7 digits where the shape asks
+\* for the longest text and the value is verified to survive the print/scan cycle unchanged):
+\*   fa, fb : a positive / a negative value of ordinary magnitude
+\*   fs : the shortest text, one digit                         "7"
+\*   fl : the longest one: sign, every digit, exponent sign, every exponent digit
+\*        "-d.ddddddddddddddde-ddd" (23 characters) / "-d.dddddde-dd" (13 characters)
+\*   fz : the longest fixed notation, "-0.000dddddddddddddddd" / "-0.000ddddddd"
+\*   fi : an integral value with every digit and no point, "dddddddddddddddd" / "ddddddd"
+\*   fd : a subnormal value (three-digit / two-digit negative exponent)
+\*   fx : the largest magnitudes of the type on the lattice (1.79769313486231e+308 / 3.40282e+38)
+TCFltShapes == {"fs", "fl", "fz", "fi", "fd", "fx"}
+TCFltToks  == {"nan", "pinf", "ninf", "pz", "nz", "fa", "fb"} \cup TCFltShapes
 \* what scanf makes of a run of number characters.  |min| = max + 1 ("10" after "9") does not fit:
 \* the conversions of the 1-, 2- and 4-byte integers wrap it round to min, strtol clamps the 8-byte one to max.
 TCTokOf(run, fld) ==
@@ -151,6 +166,79 @@ TCWriteElem(f, e) == IF TCIsStr(f) THEN TCPad(e, f.w) ELSE TCNumText[e]
 TCWriteCell(f, c) == TCJoin([e \in 1..Len(c) |-> TCWriteElem(f, c[e])], <<"dl">>)      \* element delimiter
 TCWriteRow(fs, r) == TCJoin([i \in 1..Len(fs) |-> TCWriteCell(fs[i], r[i])], <<"dl">>) \o <<"nl">>
 TCWriteRows(t)    == TCFlat([r \in 1..Len(t.rows) |-> TCWriteRow(t.fields, t.rows[r])])
+
+\* =================================================================================
+\* THE DELIMITER AS A DIMENSION  ("for every single-character delimiter")
+\* A delimiter is a character code.  The universe is tab, vertical tab, form feed and the 95
+\* printable ASCII characters (line feed and carriage return terminate lines; NUL is the empty
+\* delimiter, i.e. a binary file).  A delimiter is *inherently ambiguous* - and therefore outside
+\* the quantifier of the statement, whatever the implementation - when a file written with it
+\* cannot be tokenised by the number grammar of C (strtol/strtod as used by scanf) alone:
+\*   (a) it occurs in the text of a number as "%d", "%u", "%.16g", "%.7g" print it
+\*       (digits + - . e and the letters of nan and inf), or
+\*   (b) it continues such a text into a longer number token: after a written "0" the hexadecimal
+\*       prefix x/X, after an integer part '.', after digits e/E, after "inf" the i/I of "infinity".
+\*       (ISO C also lets "nan" continue with "(n-char-sequence)"; the scanf of this platform reads
+\*       "nan" alone, so '(' is kept inside the quantifier - trusted-base note of the adapter.)
+\* TCContinue lists (b) by the state in which a written number text ends.
+\* =================================================================================
+TCDigitCodes      == 48..57
+TCDelimUniverse   == {9, 11, 12} \cup (32..126)
+TCWrittenNumCodes == TCDigitCodes \cup {43, 45, 46, 101, 110, 97, 105, 102}            \* + - . e n a i f
+TCContinue == [zero  |-> TCDigitCodes \cup {46, 101, 69, 120, 88},                    \* "0"    then digit . e E x X
+               whole |-> TCDigitCodes \cup {46, 101, 69},                             \* "12"   then digit . e E
+               frac  |-> TCDigitCodes \cup {101, 69},                                 \* "1.5"  then digit e E
+               expo  |-> TCDigitCodes,                                                \* "1e+09" then digit
+               inf   |-> {105, 73},                                                   \* "inf"  then i I (infinity)
+               nan   |-> {}]                                                          \* "nan"
+TCAmbiguousCodes  == TCWrittenNumCodes \cup UNION {TCContinue[st] : st \in DOMAIN TCContinue}
+TCQuantDelims     == TCDelimUniverse \ TCAmbiguousCodes          \* the delimiters the statement quantifies over
+TCListedDelims    == {44, 58, 9, 32, 59, 124}                    \* , : tab space ; |  (the catalogue of the quantifier text)
+
+\* mechanism class (how records.cpp treats it) and syntactic group (what else the character means
+\* to the layers it passes through: printf/scanf formats, the python literal of the sfile header,
+\* brackets of the bracketed-array mode, comment characters, letters next to numbers)
+TCDelimClass(c) == IF c = 32 THEN "space" ELSE IF c \in {9, 11, 12} THEN "tab"
+                   ELSE IF c \in TCAmbiguousCodes THEN "ambiguous" ELSE "plain"
+TCDelimGroup(c) == IF c \in TCAmbiguousCodes THEN "ambiguous"
+                   ELSE IF c \in {9, 11, 12, 32} THEN "white"
+                   ELSE IF c \in {44, 58, 59, 124} THEN "listed"
+                   ELSE IF c = 37 THEN "percent"                  \* introduces a conversion in a printf/scanf format
+                   ELSE IF c \in {34, 39, 92} THEN "pyquote"      \* " ' \ : syntax of a python string literal (header _DELIM)
+                   ELSE IF c \in {40, 41, 60, 62, 91, 93, 123, 125} THEN "bracket"
+                   ELSE IF c = 35 THEN "hash"
+                   ELSE IF c \in (65..90) \cup (97..122) THEN "letter"
+                   ELSE "punct"
+
+\* ---- printf in miniature: a format is a sequence of characters; '%' introduces a conversion
+\* ("%d"/"%s" print the argument, "%%" prints a percent sign, the argument is used once).  Inside a
+\* format the delimiter character is the token "dl"; it *is* a percent sign when the code is 37.
+TCIsPct(tok, c) == tok = "%" \/ (tok = "dl" /\ c = 37)
+TCPctTok(c)     == IF c = 37 THEN "dl" ELSE "%"
+RECURSIVE TCPrintf(_, _, _)
+TCPrintf(fmt, arg, c) ==
+    IF fmt = <<>> THEN <<>>
+    ELSE IF ~TCIsPct(fmt[1], c) THEN <<fmt[1]>> \o TCPrintf(Tail(fmt), arg, c)
+    ELSE IF Len(fmt) = 1 THEN <<>>                                                     \* incomplete conversion: nothing
+    ELSE IF TCIsPct(fmt[2], c) THEN <<TCPctTok(c)>> \o TCPrintf(SubSeq(fmt, 3, Len(fmt)), arg, c)
+    ELSE IF fmt[2] \in {"d", "s"} THEN arg \o TCPrintf(SubSeq(fmt, 3, Len(fmt)), <<>>, c)
+    ELSE TCPrintf(SubSeq(fmt, 3, Len(fmt)), arg, c)                                     \* unknown conversion: nothing
+
+\* ---- writer, per value, for the delimiter code c.  wr = "arg": the separator is the *argument*
+\* of fprintf(fp, "%s", mDelim) (records.cpp WriteField) - "fmt": the separator is concatenated in
+\* front of the number's print format (one stdio call per number), the deviating variant.
+TCRowVals(fs, r) == TCFlat([i \in 1..Len(fs) |-> [e \in 1..Len(r[i]) |-> [fld |-> fs[i], el |-> r[i][e]]]])
+TCSepText(c)     == TCPrintf(<<"%", "s">>, <<"dl">>, c)
+TCWriteVal(v, lead, c, wr) ==
+    IF TCIsStr(v.fld) THEN (IF lead THEN TCSepText(c) ELSE <<>>) \o TCPad(v.el, v.fld.w)           \* fputc per byte
+    ELSE IF wr = "fmt" /\ lead THEN TCPrintf(<<"dl", "%", "d">>, TCNumText[v.el], c)
+    ELSE (IF lead THEN TCSepText(c) ELSE <<>>) \o TCPrintf(<<"%", "d">>, TCNumText[v.el], c)
+TCWriteRowD(fs, r, c, wr) ==
+    LET vs == TCRowVals(fs, r) IN TCFlat([k \in 1..Len(vs) |-> TCWriteVal(vs[k], k > 1, c, wr)]) \o <<"nl">>
+TCWriteRowsD(t, c, wr) == TCFlat([r \in 1..Len(t.rows) |-> TCWriteRowD(t.fields, t.rows[r], c, wr)])
+\* a number that is not the first value of its row (it is written after a separator)
+TCHasLedNumber(t) == \E r \in 1..Len(t.rows) : LET vs == TCRowVals(t.fields, t.rows[r])
+                                                IN \E k \in 2..Len(vs) : ~TCIsStr(vs[k].fld)
 
 \* ---- scanner --------------------------------------------------------------------------
 RECURSIVE TCSkipWS(_, _, _)
